@@ -38,7 +38,7 @@ def l2_batch(seed, count, base=0, **kw):
 def l1_batch(seed, count, nops, base=0, **kw):
     out = []
     for i in range(count):
-        nb = [("BucketsSize", 64), ("BucketsSize", 4), ("Capacity", 300), ("BucketsSize", 1024)][i % 4]
+        nb = [("BucketsSize", 64), ("BucketsSize", 1), ("Capacity", 300), ("BucketsSize", 1024)][i % 4]     # one bucket: a chain of hundreds
         kt = ["bytes", "string", "bytes", "u64", "vu64", "i64"][i % 6]
         out.append(gen.gen_l1(seed * 1000 + 500 + i, idbase=(base + i) * IDSTEP, nops=nops, nb=nb, kt=kt,
                               name="l1_%d" % i, **kw))
